@@ -29,6 +29,17 @@ void pool_free__contract(pool * p) __CPROVER_requires(1) __CPROVER_ensures(1) __
 #define POST_token_pool_free (token_pool_count == OLD(token_pool_count) && (token_pool_count == 0 ? token_pool == NULL : token_pool == OLD(token_pool)))
 CONTRACT(void, token_pool_free, (void), PRE_token_pool_free, POST_token_pool_free, __CPROVER_assigns(token_pool))
 
+/* ---- with the pool enabled a token's storage belongs to the pool until the outermost drain:
+ *   token_free is a no-op (empty frame: in particular no file-scope recycling list, which a real drain would leave pointing into
+ *   freed slabs); token_new returns exactly the object pool_allocate_object hands out (replaced by a contract returning a ghost) */
+static token * g_fresh;
+void * pool_allocate_object__contract(pool * p) __CPROVER_requires(p == token_pool) __CPROVER_ensures(__CPROVER_return_value == (void *)g_fresh) __CPROVER_assigns();
+#define PRE_token_free (t == NULL || __CPROVER_rw_ok(t, sizeof(token)))
+CONTRACT(void, token_free, (token * t), PRE_token_free, 1, __CPROVER_assigns())
+#define PRE_token_new (token_pool != NULL && g_fresh != NULL && __CPROVER_rw_ok(g_fresh, sizeof(token)))
+#define POST_token_new (RET == g_fresh && RET->type == type && RET->start == start && RET->len == len && RET->next == NULL && RET->prev == NULL && RET->child == NULL && RET->mate == NULL && RET->tail == RET)
+CONTRACT(token *, token_new, (unsigned short type, size_t start, size_t len), PRE_token_new, POST_token_new, __CPROVER_assigns(__CPROVER_object_whole(g_fresh)))
+
 static void mk_pool_state(void) {
 	IN(short, cnt); IN(bool, has_pool);
 	token_pool_count = cnt;
@@ -47,6 +58,20 @@ static void mk_pool_state(void) {
 void h_tp_init(void) {
 	mk_pool_state();
 	CALLV(token_pool_init(), PRE_token_pool_init, POST_token_pool_init)
+	REACH();
+}
+
+void h_token_free(void) {
+	mk_pool_state();
+	IN(bool, null); token * t = null ? NULL : ALLOC(sizeof(token));
+	CALLV(token_free(t), PRE_token_free, 1)
+	REACH();
+}
+void h_token_new(void) {
+	mk_pool_state(); ASSUME(token_pool != NULL);
+	g_fresh = ALLOC(sizeof(token));
+	IN(unsigned short, type); IN(size_t, start); IN(size_t, len);
+	CALLR(token *, token_new(type, start, len), PRE_token_new, POST_token_new)
 	REACH();
 }
 
